@@ -4,6 +4,7 @@ import Dashu.Proofs.Text.FloatPrec
 import Dashu.Proofs.Text.FloatPad
 import Dashu.Proofs.Text.ConvDiv
 import Dashu.Proofs.Text.ConvDigits
+import Dashu.Proofs.Text.FloatSci
 /-
   C08 — Float text I/O is lossless; base/precision changes are faithfully rounded.   **partial**
 
@@ -26,10 +27,15 @@ import Dashu.Proofs.Text.ConvDigits
   * `with_precision`: precision becomes `p`; rounding contract of C03 when digits are dropped, value
     unchanged and `Exact` otherwise (and always for `p = 0`).
 
+  * the padding AMOUNTS of `Display` and of the scientific formats: the formatter's width is honoured
+    exactly (`display_width_exact`, `scientific_width_exact`);
+  * the scientific formats (`LowerExp`, `UpperExp`, `Binary`, `Octal`, `LowerHex`, `UpperHex`, the
+    hexadecimal form of base 2): the rounding step is the mode's rounding to `p + 1` significant digits
+    and the text denotes that rounded value (`scientific_rounding`, `scientific_text_denotes`).
+
   Not proved (checked by the correspondence run only; see `vlib/props/c08.py` FRONTIER):
-  width/fill/`+` padding of `fmt_round` and the scientific formats, the small-negative-exponent branch
-  (division: builder-float's `reprDiv` model, C03) and the large-exponent branch through `ln`/`exp`
-  (judged per case by exact arithmetic; it does *not* meet the contract — two recorded findings).
+  the large-exponent branch of `convert_base` through `ln`/`exp` (judged per case by exact arithmetic;
+  it does *not* meet the contract — two recorded findings); `Debug`.
 -/
 namespace Dashu.Props.C08
 open Dashu.Model.Text Dashu.Model.Float
@@ -293,6 +299,76 @@ theorem with_base_precision_model (W B NewB p : Nat) (hB : 1 ≤ B) (hN : 2 ≤ 
   rw [e]
   exact withBasePrecisionSpec_max B NewB p hB hN
 
+/-- **the width is honoured exactly (`Display`)**: with a width `w` the text is
+    `fill^a ++ sign ++ '0'^b ++ core ++ fill^c` and `a + b + c = w − (|sign| + |core|)` (truncated
+    subtraction: a text that is long enough gets nothing, nothing is ever cut) — the text has exactly
+    `max w (|sign| + |core|)` characters; with the zero flag everything goes after the sign, otherwise to
+    the right for `<`, to the left for `>` and by default, split with the extra character on the right
+    for `^`.  (The `width` `fmt_round` computes from digit count, exponent and precision IS the length
+    of what it prints: `widthG_eq_length`.) -/
+theorem display_width_exact (B : Nat) (hB : 2 ≤ B) (m : Mode) (f : FmtSpec) (prec : Option Nat) (r : FRepr)
+    (w : Nat) (hw : f.width = some w) :
+    ∃ a b c : Nat,
+      fmtRound B m f prec r =
+        rep a f.fill ++ fSign f.plus r ++ rep b [48] ++ fmtRoundCore B m prec r ++ rep c f.fill ∧
+      a + b + c = w - ((fSign f.plus r).length + (fmtRoundCore B m prec r).length) ∧
+      (f.zero = true → a = 0 ∧ c = 0) ∧
+      (f.zero = false → b = 0 ∧ (f.align = some .left → a = 0) ∧
+        ((f.align = some .right ∨ f.align = none) → c = 0) ∧
+        (f.align = some .center → a = (a + c) / 2 ∧ c = a + c - (a + c) / 2)) :=
+  fmtRound_width B hB m f prec r w hw
+
+/-- **the width is honoured exactly (scientific formats)**; here the alignment decides also under the
+    zero flag, which only turns the left share into zeros behind sign and `0x` -/
+theorem scientific_width_exact (B : Nat) (m : Mode) (f : FmtSpec) (prec : Option Nat) (upper useHex : Bool)
+    (marker : Nat) (r : FRepr) (w : Nat) (hw : f.width = some w) :
+    ∃ a b c : Nat,
+      fmtSciG B m f prec upper useHex marker r =
+        rep a f.fill ++ fSign f.plus r ++ (if useHex then [48, 120] else []) ++ rep b [48] ++
+          fmtSciCore B m prec upper useHex marker r ++ rep c f.fill ∧
+      a + b + c = w - ((fSign f.plus r).length + (if useHex then 2 else 0) +
+        (fmtSciCore B m prec upper useHex marker r).length) ∧
+      (f.zero = true → a = 0) ∧ (f.zero = false → b = 0) ∧
+      (f.align = some .left → a + b = 0) ∧
+      ((f.align = some .right ∨ f.align = none) → c = 0) ∧
+      (f.align = some .center → a + b = (a + b + c) / 2) :=
+  fmtSciG_width B m f prec upper useHex marker r w hw
+
+/-- **the rounding step of the scientific formats** (`{:.p0e}` and the radix traits): the significand is
+    rounded — under the type's mode — to `P = p0 + 1` significant digits (`4·p0 + 4` bits for the
+    hexadecimal form): `R` is the integer the mode names for `signif / B^shift`, `shift = digits − P`
+    (`0` when nothing is dropped); the pair `(S, e)` handed to the digit printer has the same value
+    `S·B^e = R·B^(exp + shift)` — a carry into a new digit (`9.99 → 10.0`) is dropped without changing
+    it — and `S` has at most `P` digits -/
+theorem scientific_rounding (B : Nat) (hB : 2 ≤ B) (m : Mode) (p0 : Nat) (useHex : Bool) (r : FRepr) :
+    Dashu.Model.Float.ModeSpec m r.signif ((B ^ sciShift B p0 useHex r : Nat) : Int) (sciRounded B m p0 useHex r) ∧
+    ((sciPair B m (some p0) useHex r).1 : ℚ) * bpowQ B (sciPair B m (some p0) useHex r).2 =
+        (sciRounded B m p0 useHex r : ℚ) * bpowQ B (r.exp + (sciShift B p0 useHex r : Int)) ∧
+    digitsI B (sciPair B m (some p0) useHex r).1 ≤ sciDigits useHex p0 :=
+  ⟨sciRounded_spec B hB m p0 useHex r, sciPair_value B hB m p0 useHex r⟩
+
+/-- **the scientific text denotes the rounded value**: the core of every scientific format is
+    `d₀ [. d₁…d_n] marker E` — one leading digit; behind a point (absent when there are none) the remaining
+    digits and zeros, exactly `p0` of them under a precision `p0`; all digits below the shown radix (`16`
+    for the hexadecimal form of base 2, else `B`) — and `(d₀d₁…d_n)_radix · B^(E − n·k) = |shown value|`
+    (`k = 4` for hexadecimal digits, else 1), where the shown value `sciShown` is the exact value without a
+    precision and `R·B^(exp + shift)` of `scientific_rounding` with one; the sign printed is the sign of
+    the shown value -/
+theorem scientific_text_denotes (B : Nat) (hB : 2 ≤ B) (m : Mode) (prec : Option Nat) (upper useHex : Bool)
+    (hhex : useHex = true → B = 2) (marker : Nat) (r : FRepr) :
+    (∃ (d0 : Nat) (fd : List Nat) (E : Int),
+      fmtSciCore B m prec upper useHex marker r =
+        chars upper [d0] ++ fracChars upper (if fd = [] then none else some fd) ++ [marker] ++
+          printSpecInt 10 false E ∧
+      d0 < sciRadix B useHex ∧ (∀ d ∈ fd, d < sciRadix B useHex) ∧
+      (∀ p0, prec = some p0 → fd.length = p0) ∧
+      (ofDigits (sciRadix B useHex) (d0 :: fd) : ℚ) * bpowQ B (E - ((fd.length * sciK useHex : Nat) : Int)) =
+        |sciShown B m prec useHex r|) ∧
+    (r.signif < 0 → sciShown B m prec useHex r < 0) ∧ (0 ≤ r.signif → 0 ≤ sciShown B m prec useHex r) ∧
+    sciShown B m none useHex r = r.toRat B :=
+  ⟨fmtSciCore_denotes B hB m prec upper useHex hhex marker r, (sciShown_sign B hB m prec useHex r).1,
+    (sciShown_sign B hB m prec useHex r).2, rfl⟩
+
 -- non-vacuity
 example : ilogExact 16 2 = 4 ∧ ilogExact 8 2 = 3 ∧ ilogExact 10 2 = 0 ∧ ilogExact 36 6 = 2 := by decide
 example : (2 : Nat) ≤ 10 ∧ (1 : Nat) ≤ 53 := by decide
@@ -337,5 +413,13 @@ example := convert_base_exact_paths_contract 64 2 16 (by decide) (by decide) .ze
 example := convert_base_result_digits 64 2 16 (by decide) (by decide) (by decide) .zero 10 (by decide) ⟨5, -3⟩ _
   (convert_base_pow_up_branch 64 2 16 .zero 10 ⟨5, -3⟩ (by decide) (by decide))
 example := with_base_precision_model 64 10 2 17 (by decide) (by decide) (by decide) (by decide)
+example := display_width_exact 10 (by decide) .halfEven { width := some 12, align := some .center, fill := [42] } (some 2)
+  ⟨-12345, -3⟩ 12 rfl
+example := scientific_width_exact 2 .zero { width := some 20, zero := true, plus := true } (some 2) true true 112 ⟨0x1ff, 3⟩ 20 rfl
+example := scientific_rounding 10 (by decide) .halfEven 2 false ⟨-99951, -3⟩
+example := scientific_text_denotes 2 (by decide) .up (some 1) true true (fun _ => rfl) 112 ⟨0x1ff, 3⟩
+-- 9.9951e1 rounded to 3 significant digits carries into a new digit: the printed pair is (100, 0), value 1.00e2
+example : sciRounded 10 .halfEven 2 false ⟨99951, -3⟩ = 1000 ∧ sciShift 10 2 false ⟨99951, -3⟩ = 2 ∧
+    sciPair 10 .halfEven (some 2) false ⟨99951, -3⟩ = (100, 0) := by decide
 
 end Dashu.Props.C08
